@@ -321,6 +321,21 @@ def validate(spec, trace, trace2=None):
         m = STRICT_RE.match(line)
         if m:
             strict.append(dict(what=m.group(1), line=int(m.group(2)), op=m.group(3)))
+    if fails:
+        # crash-point segments come in pairs (faulted / fault-free twin making the same calls): note where
+        # in its segment each failure sits, so that the two can be compared call by call
+        try:
+            lines = open(trace, errors="replace").read().splitlines()
+            for f_ in fails:
+                if 0 < f_["line"] <= len(lines):
+                    try:
+                        ev = json.loads(lines[f_["line"] - 1])
+                        if isinstance(ev, dict) and "seg" in ev:
+                            f_["seg"], f_["twin"], f_["i"] = ev["seg"], ev.get("twin", 0), ev.get("i", -1)
+                    except Exception:
+                        pass
+        except Exception:
+            pass
     m = re.search(r"(\d+) states generated, (\d+) distinct states found", r.stdout)
     states = int(m.group(2)) if m else 0
     accepted = "Model checking completed. No error has been found." in r.stdout
@@ -416,14 +431,15 @@ def cut_replay(trace, line, dest):
 SEMANTIC = {"C01", "C05", "C06", "C08", "C09", "C12", "C13", "C14"}
 
 
-def counts_for(pid, plan, f, baseline_broken):
+def counts_for(pid, plan, f, baseline_broken, path=None):
     """Does the failed monitor f decide property pid?"""
     if pid in f["props"] or f["monitor"] in plan.get("monitors", []):
         return True
     ctx = f.get("ctx", [])
     sem = bool(set(f["props"]) & SEMANTIC)
-    if plan.get("after_fault") and sem and "postfault" in ctx and "baseline" not in ctx and not baseline_broken:
-        return True     # C07: "... and later operations behave normally"
+    if plan.get("after_fault") and sem and "postfault" in ctx and "baseline" not in ctx \
+            and (path, f.get("seg"), f.get("i"), f["monitor"]) not in baseline_broken:
+        return True     # C07: "... and later operations behave normally" (and they do without the panic)
     if plan.get("on_clones") and sem and "cloned" in ctx:
         return True     # C11: the product of clone/clone_from is a fully fledged, independent map
     return False
@@ -528,8 +544,10 @@ def run_check(pid, tier, seed, replay):
     known = load_known()
     # is the code misbehaving even in the fault-free control segments? then failures after an injected
     # panic cannot be blamed on the panic
-    baseline_broken = any("baseline" in f.get("ctx", []) and set(f["props"]) & SEMANTIC
-                          for t, sp, r in results if sp == "TraceRef" and not r["tool_error"] for f in r["fails"])
+    # (per trace, segment, call index and monitor: what also fails in the fault-free twin)
+    baseline_broken = set((t["path"], f.get("seg"), f.get("i"), f["monitor"])
+                          for t, sp, r in results if sp == "TraceRef" and not r["tool_error"]
+                          for f in r["fails"] if "baseline" in f.get("ctx", []))
     nvalid = 0
     drift = []
     tool_err = []
@@ -546,7 +564,7 @@ def run_check(pid, tier, seed, replay):
         if sp in ("TraceRef", "TraceDiff"):
             nvalid += 1
             for f in r["fails"]:
-                if counts_for(pid, plan, f, baseline_broken):
+                if counts_for(pid, plan, f, baseline_broken, t["path"]):
                     hit = [k for k in known if known_match(k, pid, f, t["elem"])]
                     if hit:
                         known_hits.append((hit[0], f, t))
